@@ -13,9 +13,9 @@ import random
 from harness import core, lexer, lit, tlc
 
 MARK = "zqz"
-ALPHABET = ["a", "A", "1", " ", ".", '"', "`", "'", "[", "]", "é", "-", "\\"]
+ALPHABET = ["a", "A", "1", " ", ".", '"', "`", "'", "[", "]", "é", "-", "\\", "{", "}"]
 CLASS = {" ": "space", ".": "dot", '"': "dquote", "`": "backtick", "'": "squote", "[": "lbracket", "]": "rbracket",
-         "-": "dash", "\\": "backslash"}
+         "-": "dash", "\\": "backslash", "{": "brace", "}": "brace"}
 KEYWORDS = ["select", "order", "Group", "table", "from", "null"]
 
 
@@ -125,6 +125,18 @@ def sites():
     def create_period(Q, n): return render(Q, Q.create_table("t").columns(Column("x", "INT")).period_for(n, "x", "x"))
     def create_period_col(Q, n): return render(Q, Q.create_table("t").columns(Column("x", "INT")).period_for("p", n, "x"))
     def drop_table(Q, n): return render(Q, Q.drop_table(n))
+    # the same DDL through the other two render paths: str() and get_sql() without a context use the creating class's dialect
+    def drop_table_str(Q, n): return str(Q.drop_table(n))
+    def drop_table_noctx(Q, n): return Q.drop_table(n).get_sql()
+    def create_table_str(Q, n): return str(Q.create_table(n).columns(Column("x", "INT")))
+    def create_table_noctx(Q, n): return Q.create_table(n).columns(Column("x", "INT")).get_sql(None)
+    def drop_table_if_exists(Q, n): return str(Q.drop_table(n).if_exists())
+    def join_table_alias(Q, n):
+        tn = _Table("u").as_(n)
+        return str(Q.from_(t).join(tn).on(t.x == tn.x).select(t.x, tn.y))
+    def left_join_schema_table(Q, n): return str(Q.from_(t).left_join(Table("u", schema=n)).on(t.x == Table("u", schema=n).x).select(t.x))
+    def join_using_table(Q, n): return str(Q.from_(t).join(Table(n)).using("x").select(t.x))
+    def cross_join_table(Q, n): return str(Q.from_(t).join(Table(n)).cross().select(t.x))
     def returning(Q, n):
         from pypika_tortoise import PostgreSQLQuery
         if Q is not PostgreSQLQuery:
@@ -207,7 +219,7 @@ def names(tier, rnd):
     out = ["".join(p) for n in (1, 2) for p in itertools.product(ALPHABET, repeat=n)]
     out += KEYWORDS + ["My Col", 'a"b"c', "x``y", "a.b.c", "ü ñ", "tab\tname", "x'--", "a]b[c"]
     # names that are SQL punctuation or syntax when left bare
-    out += ["*", "%", "?", "(", ")", ",", ";", "--", "/*", "*/", "=", "t.*", "$1", "%s", ":p", "@v", "#", "x y", "NULL", "1"]
+    out += ["{0}", "{}", "x{collate}y", "{criterion}", "{table}", "%(a)s", "{{", "*", "%", "?", "(", ")", ",", ";", "--", "/*", "*/", "=", "t.*", "$1", "%s", ":p", "@v", "#", "x y", "NULL", "1"]
     if tier != "quick":
         out += ["".join(p) for p in itertools.product(['"', "`", "a", ".", " ", "'"], repeat=3)]
     for _ in range(60 if tier == "quick" else 1500):
